@@ -96,17 +96,8 @@ func (r *Reader) validate() error {
 		}
 	}
 
-	// Check for at least one slide
-	hasSlide := false
-	for name := range fileMap {
-		if strings.HasPrefix(name, "ppt/slides/slide") && strings.HasSuffix(name, ".xml") {
-			hasSlide = true
-			break
-		}
-	}
-	if !hasSlide {
-		return fmt.Errorf("no slides found in presentation")
-	}
+	// Whether the presentation has slides is decided by parseSlides, which
+	// follows the slide list; slide parts need not be named ppt/slides/slideN.xml.
 
 	return nil
 }
@@ -150,21 +141,27 @@ func (r *Reader) parsePresentation() error {
 
 // parseSlides parses all slide files.
 func (r *Reader) parseSlides() error {
-	// Find all slide files
-	slideFiles := make([]string, 0)
-	for _, f := range r.zipReader.File {
-		if strings.HasPrefix(f.Name, "ppt/slides/slide") && strings.HasSuffix(f.Name, ".xml") {
-			// Exclude relationship files
-			if !strings.Contains(f.Name, "_rels") {
-				slideFiles = append(slideFiles, f.Name)
+	// The presentation declares its slides and their order: <p:sldIdLst> lists
+	// relationship ids, ppt/_rels/presentation.xml.rels maps them to parts.
+	slideFiles := r.declaredSlidePaths()
+
+	if len(slideFiles) == 0 {
+		// No usable slide list: fall back to every ppt/slides/slideN.xml
+		// member, ordered by N.
+		for _, f := range r.zipReader.File {
+			if strings.HasPrefix(f.Name, "ppt/slides/slide") && strings.HasSuffix(f.Name, ".xml") {
+				// Exclude relationship files
+				if !strings.Contains(f.Name, "_rels") {
+					slideFiles = append(slideFiles, f.Name)
+				}
 			}
 		}
-	}
 
-	// Sort slides by number
-	sort.Slice(slideFiles, func(i, j int) bool {
-		return extractSlideNumber(slideFiles[i]) < extractSlideNumber(slideFiles[j])
-	})
+		// Sort slides by number
+		sort.Slice(slideFiles, func(i, j int) bool {
+			return extractSlideNumber(slideFiles[i]) < extractSlideNumber(slideFiles[j])
+		})
+	}
 
 	r.slides = make([]*Slide, 0, len(slideFiles))
 
@@ -188,6 +185,34 @@ func (r *Reader) parseSlides() error {
 	}
 
 	return nil
+}
+
+// declaredSlidePaths returns the slide parts in presentation order by joining
+// the slide id list of presentation.xml with the presentation relationships.
+// It returns nil when the presentation has no slide list or no relationships.
+func (r *Reader) declaredSlidePaths() []string {
+	if r.presentation == nil || r.presentation.SlideIdList == nil || r.presRels == nil {
+		return nil
+	}
+	targets := make(map[string]string, len(r.presRels.Relationship))
+	for _, rel := range r.presRels.Relationship {
+		targets[rel.ID] = rel.Target
+	}
+	var paths []string
+	for _, sld := range r.presentation.SlideIdList.SlideId {
+		target := targets[sld.RID]
+		if target == "" {
+			continue
+		}
+		if strings.HasPrefix(target, "/") {
+			// absolute part name
+			paths = append(paths, strings.TrimPrefix(target, "/"))
+		} else {
+			// relative to ppt/presentation.xml
+			paths = append(paths, path.Join("ppt", target))
+		}
+	}
+	return paths
 }
 
 // extractSlideNumber extracts the slide number from a path like "ppt/slides/slide1.xml"
